@@ -10,6 +10,8 @@ MAP_LIKE = {
     "core::iter::traits::iterator::Iterator::filter_map": 1,
     "core::iter::traits::iterator::Iterator::flat_map": 1,
     "core::iter::traits::iterator::Iterator::all": 1,
+    "core::iter::traits::iterator::Iterator::any": 1,
+    "core::iter::traits::iterator::Iterator::position": 1,
     "core::iter::traits::iterator::Iterator::for_each": 1,
 }
 
